@@ -1829,3 +1829,393 @@ Proof.
   - intros m s c x log HI Hc. eapply sends_step; eassumption.
   - apply sends_inv_reset. intros i p Hs. rewrite (H0 _ _ Hs). lia.
 Qed.
+
+(* ------------------------------------------------------------------ the FdlApplication contract and the unreachable!() sites *)
+
+(* the contract (C15) as a monitor over the trace: `pend` = the station a reply is outstanding from.
+   receive_reply(a, t) / handle_timeout(a) only for the outstanding request, t only what the FDL admits
+   (DpOracle.admissible: SC, or a response from a to this master); a request may also be dropped without
+   any callback (token given up), so transmit_telegram is always allowed. *)
+Definition pend_item (own : Z) (pend : option Z) (it : item) : option (option Z) :=
+  match it_cb it with
+  | CTx _ _ => match it_out it with OTx (Some (_, exp)) => Some exp | _ => Some None end
+  | CRx a t =>
+      match pend with
+      | Some da => if (a =? da) && admissible own da t then Some None else None
+      | None => None
+      end
+  | CTo a => match pend with Some da => if a =? da then Some None else None | None => None end
+  | _ => Some pend
+  end.
+
+Fixpoint pend_run (own : Z) (pend : option Z) (tr : list item) : option (option Z) :=
+  match tr with
+  | [] => Some pend
+  | it :: r => match pend_item own pend it with Some p' => pend_run own p' r | None => None end
+  end.
+
+Definition safe_inv (m : dpm) (pend : option Z) : Prop :=
+  (forall i p, slot m i = Some p -> pe_fcb p <> FcbInactive) /\
+  (length (dm_slots m) <= 256)%nat /\
+  (forall da, pend = Some da ->
+     exists index hd p, dm_cycle m = CyDataExchange index /\
+                        get_at_index (dm_slots m) index = Ok (Some (hd, p)) /\ pe_addr p = da).
+
+Lemma find_of_occupied : forall l j i r,
+  occupied_from l j = i :: r -> exists q, find_occupied l j = Some (i, q).
+Proof.
+  induction l as [|x l IH]; intros j i r H; [discriminate H|].
+  destruct x as [q|]; cbn in H |- *.
+  - inversion H; subst. exists q. reflexivity.
+  - eapply IH. exact H.
+Qed.
+
+Lemma get_at_index_of_occ : forall l index i r p,
+  occupied_from (skipn index l) index = i :: r -> nth_error l i = Some (Some p) -> (i <= 255)%nat ->
+  get_at_index l index = Ok (Some (mkHandle i (pe_addr p), p)).
+Proof.
+  intros l index i r p Ho Hn Hi. unfold get_at_index.
+  destruct (find_of_occupied _ _ _ _ Ho) as (q & Hf). rewrite Hf.
+  destruct (find_occupied_nth _ _ _ _ Hf) as (k & Hk & Hq). rewrite nth_error_skipn' in Hq.
+  subst i. rewrite Hn in Hq. inversion Hq; subst q.
+  unfold bind, u8_index. destruct (Nat.ltb 255 (index + k)) eqn:E; [apply Nat.ltb_lt in E; lia|]. reflexivity.
+Qed.
+
+Lemma occupied_from_bound : forall l j i, In i (occupied_from l j) -> (i < j + length l)%nat.
+Proof.
+  induction l as [|x l IH]; intros j i H; [destruct H|].
+  destruct x as [q|]; cbn in H |- *.
+  - destruct H as [<-|H]; [lia|]. specialize (IH _ _ H). lia.
+  - specialize (IH _ _ H). lia.
+Qed.
+
+Lemma pos_bound : forall l index i, In i (occupied_from (skipn index l) index) -> (i < Nat.max index (length l))%nat.
+Proof.
+  intros l index i H. apply occupied_from_bound in H. rewrite skipn_length in H. lia.
+Qed.
+
+(* the current slot survives a replacement of any peripheral by one with the same address *)
+Lemma cur_after_put : forall m index hd p j q q',
+  dm_cycle m = CyDataExchange index -> get_at_index (dm_slots m) index = Ok (Some (hd, p)) ->
+  slot m j = Some q -> pe_addr q' = pe_addr q ->
+  exists hd' p', get_at_index (put_slot (dm_slots m) j q') index = Ok (Some (hd', p')) /\ pe_addr p' = pe_addr p.
+Proof.
+  intros m index hd p j q q' Hc Hg Hs Ha.
+  destruct (get_at_index_spec _ _ _ _ Hg) as (r & Ho & Hn & _).
+  assert (Hi : (hd_index hd <= 255)%nat).
+  { unfold get_at_index in Hg. destruct (find_occupied _ _) as [[i0 q0]|]; [|discriminate Hg].
+    unfold bind, u8_index in Hg. destruct (Nat.ltb 255 i0) eqn:E; [discriminate Hg|].
+    inversion Hg; subst. cbn. apply Nat.ltb_ge in E. exact E. }
+  assert (Hmk : map occ (put_slot (dm_slots m) j q') = map occ (dm_slots m)).
+  { unfold slot in Hs. destruct (nth_error (dm_slots m) j) as [[q0|]|] eqn:Hq; try discriminate Hs.
+    eapply put_slot_mask. exact Hq. }
+  assert (Ho' : occupied_from (skipn index (put_slot (dm_slots m) j q')) index = hd_index hd :: r).
+  { rewrite <- Ho. apply occupied_mask. rewrite !map_skipn. rewrite Hmk. reflexivity. }
+  destruct (Nat.eq_dec j (hd_index hd)) as [->|Hne].
+  - assert (Hn' : nth_error (put_slot (dm_slots m) (hd_index hd) q') (hd_index hd) = Some (Some q'))
+      by (eapply put_slot_same; exact Hn).
+    eexists; eexists. split; [eapply get_at_index_of_occ; eassumption|].
+    rewrite Ha. unfold slot in Hs. rewrite Hn in Hs. inversion Hs; reflexivity.
+  - assert (Hn' : nth_error (put_slot (dm_slots m) j q') (hd_index hd) = Some (Some p))
+      by (rewrite put_slot_other by exact Hne; exact Hn).
+    eexists; eexists. split; [eapply get_at_index_of_occ; eassumption|reflexivity].
+Qed.
+
+Lemma fcb_ok_put : forall m i p p1,
+  (forall j q, slot m j = Some q -> pe_fcb q <> FcbInactive) -> slot m i = Some p -> pe_fcb p1 <> FcbInactive ->
+  forall j q, slot (set_slots m (put_slot (dm_slots m) i p1)) j = Some q -> pe_fcb q <> FcbInactive.
+Proof.
+  intros m i p p1 H Hs Hp j q Hq. destruct (Nat.eq_dec i j) as [->|Hne].
+  - rewrite (slot_put_same _ _ p1 _ Hs) in Hq. inversion Hq; subst. exact Hp.
+  - rewrite slot_put_other in Hq by exact Hne. eapply H; exact Hq.
+Qed.
+
+Lemma fcb_ok_slots : forall m m',
+  dm_slots m' = dm_slots m -> (forall j q, slot m j = Some q -> pe_fcb q <> FcbInactive) ->
+  forall j q, slot m' j = Some q -> pe_fcb q <> FcbInactive.
+Proof. intros m m' H HI j q Hq. apply (HI j). unfold slot in *. rewrite <- H. exact Hq. Qed.
+
+Lemma transmit_fcb_ok : forall pa op p p1 r,
+  p_transmit pa op p = Ok (p1, r) -> pe_fcb p <> FcbInactive -> pe_fcb p1 <> FcbInactive.
+Proof.
+  intros pa op p p1 r H Hf. pose proof (transmit_spec _ _ _ _ _ H) as Hs.
+  destruct r as [h pdu|[e|]].
+  - destruct Hs as (_ & _ & _ & _ & -> & _). exact Hf.
+  - destruct Hs as (_ & _ & -> & _). discriminate.
+  - destruct Hs as (_ & _ & _ & [->|[_ ->]]); [exact Hf|discriminate].
+Qed.
+
+Lemma reply_fcb_ok : forall p t p1 ev,
+  p_receive_reply p t = Ok (p1, ev) -> pe_fcb p <> FcbInactive -> pe_fcb p1 <> FcbInactive.
+Proof.
+  intros p t p1 ev H Hf. destruct (fcb_after_reply _ _ _ _ H) as [[-> _]|[Hc _]]; [exact Hf|].
+  destruct (pe_fcb p); inversion Hc; discriminate.
+Qed.
+
+(* Peripheral::transmit_telegram changes nothing but state, retry counter, frame count bit and the latch *)
+Lemma select_keeps : forall pa op p,
+  let p1 := fst (p_transmit_select pa op p) in
+  pe_addr p1 = pe_addr p /\ pe_pi_i p1 = pe_pi_i p /\ pe_pi_q p1 = pe_pi_q p /\ pe_opts p1 = pe_opts p /\
+  pe_diag_needed p1 = pe_diag_needed p /\ pe_diag p1 = pe_diag p /\ pe_ext p1 = pe_ext p.
+Proof.
+  intros pa op p. unfold p_transmit_select.
+  repeat match goal with
+         | |- context [if ?c then _ else _] => destruct c
+         | |- context [match ?x with _ => _ end] => destruct x
+         end; cbn; repeat split; reflexivity.
+Qed.
+
+Lemma transmit_keeps : forall pa op p p1 r,
+  p_transmit pa op p = Ok (p1, r) ->
+  pe_addr p1 = pe_addr p /\ pe_pi_i p1 = pe_pi_i p /\ pe_pi_q p1 = pe_pi_q p /\ pe_opts p1 = pe_opts p /\
+  pe_diag_needed p1 = pe_diag_needed p /\ pe_diag p1 = pe_diag p /\ pe_ext p1 = pe_ext p.
+Proof.
+  intros pa op p p1 r H. unfold p_transmit in H. destruct (opstate_eqb op OpStop); [discriminate H|].
+  pose proof (select_keeps pa op p) as Hk. destruct (p_transmit_select pa op p) as [p2 r2]. cbn [fst] in Hk.
+  destruct r2; [destruct (255 <=? pe_retry p2); [discriminate H|]|]; inversion H; subst; exact Hk.
+Qed.
+
+(* fcb / length part of safe_inv through one call of the slot loop; and a request that expects a reply is
+   addressed to the peripheral that stays current *)
+Lemma tx_rel_safe : forall pa bufsize m m' o log,
+  tx_rel pa bufsize m m' o log ->
+  (forall i p, slot m i = Some p -> pe_fcb p <> FcbInactive) ->
+  (forall i p, slot m' i = Some p -> pe_fcb p <> FcbInactive) /\
+  length (dm_slots m') = length (dm_slots m) /\
+  (forall w da, o = Some (w, Some da) ->
+     exists index hd p, dm_cycle m' = CyDataExchange index /\
+                        get_at_index (dm_slots m') index = Ok (Some (hd, p)) /\ pe_addr p = da).
+Proof.
+  intros pa bufsize m m' o log H. induction H as
+    [m Hc|m index Hc Hg|m index hd p p1 h pdu o Hc Hg Hp Hs|m index hd p p1 ev m2 Hc Hg Hp Hi
+    |m index hd p p1 e m2 Hc Hg Hp Hi|m index hd p p1 m2 m' o log Hc Hg Hp Hi Hrel IH]; intro Hf.
+  - split; [exact Hf|]. split; [reflexivity|]. intros w da E. discriminate E.
+  - split; [exact Hf|]. split; [reflexivity|]. intros w da E. discriminate E.
+  - destruct (cur_slot _ _ _ _ Hc Hg) as (r & Hr & Hsl & _).
+    pose proof (transmit_fcb_ok _ _ _ _ _ Hp (Hf _ _ Hsl)) as Hf1.
+    split; [|split].
+    + apply fcb_ok_slots with (m := put_cur m hd p1); [reflexivity|]. eapply fcb_ok_put; eassumption.
+    + cbn. apply put_slot_length.
+    + intros w da E. inversion E; subst o. clear E.
+      pose proof (transmit_spec _ _ _ _ _ Hp) as Hts. cbn beta iota in Hts.
+      destruct Hts as (_ & (rq & Hfc) & Hda & _ & _ & _ & Hst).
+      unfold send_data in Hs. destruct (encode_data_in bufsize h pdu); cbn [bind] in Hs; try discriminate Hs.
+      inversion Hs as [[Hw He]]. unfold tx_expects_reply in He. rewrite Hfc in He.
+      destruct (req_expects_reply rq); [|discriminate He]. inversion He as [Hd].
+      assert (Hadr : pe_addr p1 = pe_addr p) by (apply (transmit_keeps _ _ _ _ _ Hp)).
+      destruct (cur_after_put m index hd p (hd_index hd) p p1 Hc Hg Hsl Hadr) as (hd' & p' & Hg' & Ha').
+      exists index, hd', p'. split; [exact Hc|]. split; [exact Hg'|]. congruence.
+  - destruct (cur_slot _ _ _ _ Hc Hg) as (r & Hr & Hsl & _).
+    pose proof (transmit_fcb_ok _ _ _ _ _ Hp (Hf _ _ Hsl)) as Hf1.
+    destruct (put_cur_facts m hd p p1 Hsl) as (_ & Hcy & Hpr & _). rewrite Hc in Hcy. rewrite Hr in Hpr.
+    destruct (increment_pos _ _ _ _ _ _ Hcy Hpr Hi) as (Hsl2 & _).
+    split; [|split].
+    + apply fcb_ok_slots with (m := put_cur m hd p1); [cbn; exact Hsl2|]. eapply fcb_ok_put; eassumption.
+    + cbn. rewrite Hsl2. apply put_slot_length.
+    + intros w da E. discriminate E.
+  - destruct (cur_slot _ _ _ _ Hc Hg) as (r & Hr & Hsl & _).
+    pose proof (transmit_fcb_ok _ _ _ _ _ Hp (Hf _ _ Hsl)) as Hf1.
+    destruct (put_cur_facts m hd p p1 Hsl) as (_ & Hcy & Hpr & _). rewrite Hc in Hcy. rewrite Hr in Hpr.
+    destruct (increment_pos _ _ _ _ _ _ Hcy Hpr Hi) as (Hsl2 & _).
+    split; [|split].
+    + apply fcb_ok_slots with (m := put_cur m hd p1); [cbn; exact Hsl2|]. eapply fcb_ok_put; eassumption.
+    + cbn. rewrite Hsl2. apply put_slot_length.
+    + intros w da E. discriminate E.
+  - destruct (cur_slot _ _ _ _ Hc Hg) as (r & Hr & Hsl & _).
+    pose proof (transmit_fcb_ok _ _ _ _ _ Hp (Hf _ _ Hsl)) as Hf1.
+    destruct (put_cur_facts m hd p p1 Hsl) as (_ & Hcy & Hpr & _). rewrite Hc in Hcy. rewrite Hr in Hpr.
+    destruct (increment_pos _ _ _ _ _ _ Hcy Hpr Hi) as (Hsl2 & _).
+    assert (Hf2 : forall i q, slot m2 i = Some q -> pe_fcb q <> FcbInactive).
+    { apply fcb_ok_slots with (m := put_cur m hd p1); [exact Hsl2|]. eapply fcb_ok_put; eassumption. }
+    destruct (IH Hf2) as (Hf' & Hlen & Hreq). split; [exact Hf'|]. split; [|exact Hreq].
+    rewrite Hlen, Hsl2. cbn. apply put_slot_length.
+Qed.
+
+Lemma safe_inv_take : forall auto c m pend, safe_inv m pend -> safe_inv (fst (auto_take_m auto c m)) pend.
+Proof. intros auto c m pend H. unfold auto_take_m. destruct (auto && is_bus c); exact H. Qed.
+
+Lemma safe_inv_user : forall m m1 pend, user_upd m m1 -> safe_inv m pend -> safe_inv m1 pend.
+Proof.
+  intros m m1 pend (i & p & p' & Hs & -> & (Ha & _ & _ & Hfc & _)) (Hf & Hlen & Hp).
+  split; [|split].
+  - eapply fcb_ok_put; try eassumption. rewrite Hfc. apply (Hf _ _ Hs).
+  - cbn. rewrite put_slot_length. exact Hlen.
+  - intros da E. destruct (Hp da E) as (index & hd & q & Hc & Hg & Hq).
+    destruct (cur_after_put m index hd q i p p' Hc Hg Hs Ha) as (hd' & q' & Hg' & Ha').
+    exists index, hd', q'. split; [exact Hc|]. split; [exact Hg'|]. congruence.
+Qed.
+
+Lemma safe_step : forall auto pa bufsize m pend c x log pend',
+  safe_inv m pend -> cstep_g pa bufsize m c = Ok (x, log) ->
+  pend_item (p_address pa) pend (mk_item auto m c x log) = Some pend' ->
+  safe_inv (it_m (mk_item auto m c x log)) pend'.
+Proof.
+  intros auto pa bufsize m pend c x log pend' (Hf & Hlen & Hp) H Hpi.
+  unfold pend_item, mk_item in Hpi. cbn [it_cb it_out it_m] in *. unfold mk_item. cbn [it_m].
+  apply safe_inv_take.
+  destruct c as [now hp|a t|a| |h|h q|st].
+  - destruct (cstep_tx _ _ _ _ _ _ _ H) as (o & Ho & Hg). rewrite Ho in Hpi.
+    destruct (dp_transmit_g_cases _ _ _ _ _ _ _ _ Hg) as
+      [(_ & Hm & -> & _)|[(_ & _ & _ & Hm & _ & b & w & _ & _ & ->)|(_ & _ & Hrel)]].
+    + inversion Hpi; subst pend'. rewrite Hm. split; [exact Hf|]. split; [exact Hlen|]. intros da E; discriminate E.
+    + inversion Hpi; subst pend'. rewrite Hm. split; [exact Hf|]. split; [exact Hlen|]. intros da E; discriminate E.
+    + destruct (tx_rel_safe _ _ _ _ _ _ Hrel Hf) as (Hf' & Hlen' & Hreq).
+      split; [exact Hf'|]. split; [rewrite Hlen'; exact Hlen|].
+      destruct o as [[w exp]|]; inversion Hpi; subst pend'.
+      * intros da E. subst exp. eapply Hreq. reflexivity.
+      * intros da E. discriminate E.
+  - destruct (cstep_rx _ _ _ _ _ _ _ H) as (_ & Hg).
+    destruct (rx_cases _ _ _ _ _ Hg) as (index & hd & p & p1 & ev & m2 & cc & Hc & Hgi & _ & Hrx & Hi & Hm & _).
+    destruct (cur_slot _ _ _ _ Hc Hgi) as (r & Hr & Hsl & _).
+    destruct (put_cur_facts m hd p p1 Hsl) as (_ & Hcy & Hpr & _). rewrite Hc in Hcy. rewrite Hr in Hpr.
+    destruct (increment_pos _ _ _ _ _ _ Hcy Hpr Hi) as (Hsl2 & _).
+    assert (E : pend' = None).
+    { destruct pend as [da|]; [|discriminate Hpi]. destruct ((a =? da) && admissible (p_address pa) da t);
+        inversion Hpi; reflexivity. }
+    subst pend'. rewrite Hm. split; [|split].
+    + apply fcb_ok_slots with (m := put_cur m hd p1); [cbn; exact Hsl2|].
+      eapply fcb_ok_put; try eassumption. eapply reply_fcb_ok; [exact Hrx|]. apply (Hf _ _ Hsl).
+    + cbn. rewrite Hsl2. cbn. rewrite put_slot_length. exact Hlen.
+    + intros da E; discriminate E.
+  - destruct (other_cases_exact _ _ _ _ _ _ H) as (_ & -> & _).
+    assert (E : pend' = None).
+    { destruct pend as [da|]; [|discriminate Hpi]. destruct (a =? da); inversion Hpi; reflexivity. }
+    subst pend'. split; [exact Hf|]. split; [exact Hlen|]. intros da E; discriminate E.
+  - destruct (other_cases_exact _ _ _ _ _ _ H) as (_ & -> & _). inversion Hpi; subst pend'.
+    split; [exact Hf|]. split; [exact Hlen|]. exact Hp.
+  - destruct (other_cases_exact _ _ _ _ _ _ H) as (_ & Hu & _). inversion Hpi; subst pend'.
+    eapply safe_inv_user; [exact Hu|]. split; [exact Hf|]. split; [exact Hlen|]. exact Hp.
+  - destruct (other_cases_exact _ _ _ _ _ _ H) as (_ & Hu & _). inversion Hpi; subst pend'.
+    eapply safe_inv_user; [exact Hu|]. split; [exact Hf|]. split; [exact Hlen|]. exact Hp.
+  - destruct (other_cases_exact _ _ _ _ _ _ H) as (_ & -> & _). inversion Hpi; subst pend'.
+    split; [exact Hf|]. split; [exact Hlen|]. exact Hp.
+Qed.
+
+Lemma safe_run : forall auto pa bufsize cbs m pend tr pend',
+  safe_inv m pend -> run_g auto pa bufsize m cbs = Ok tr ->
+  pend_run (p_address pa) pend tr = Some pend' -> safe_inv (final m tr) pend'.
+Proof.
+  intros auto pa bufsize. induction cbs as [|c r IH]; intros m pend tr pend' HI H Hp; cbn [run_g] in H.
+  - inversion H; subst. cbn in Hp. inversion Hp; subst. exact HI.
+  - destruct (cstep_g pa bufsize m c) as [[x log]| |] eqn:Hc; cbn [bind] in H; try discriminate H.
+    destruct (run_g auto pa bufsize _ r) as [tr'| |] eqn:Hr; cbn [bind] in H; try discriminate H.
+    inversion H; subst. cbn [pend_run] in Hp.
+    destruct (pend_item _ pend _) as [p1|] eqn:Hpi; [|discriminate Hp].
+    pose proof (safe_step auto _ _ _ _ _ _ _ _ HI Hc Hpi) as HI'.
+    unfold final. cbn [fold_left]. eapply IH; eassumption.
+Qed.
+
+(* ---- within the contract the handlers of a reply are total *)
+
+Lemma handle_diag_total : forall p t, pe_fcb p <> FcbInactive -> exists r, p_handle_diag p t = Ok r.
+Proof.
+  intros p t Hf. unfold p_handle_diag. destruct t as [h pdu| |]; try (eexists; reflexivity).
+  destruct (negb (opt_eqb (h_dsap h) dp_diag_reply_dsap)); [eexists; reflexivity|].
+  destruct (negb (opt_eqb (h_ssap h) dp_diag_reply_ssap)); [eexists; reflexivity|].
+  destruct (Nat.ltb (length pdu) dp_diag_min_len) eqn:El; [eexists; reflexivity|].
+  apply Nat.ltb_ge in El. unfold dp_diag_min_len in El.
+  destruct pdu as [|b0 [|b1 [|b2 [|b3 [|b4 [|b5 rest]]]]]]; cbn in El; try lia.
+  cbn [get nth_error bind dp_diag_master_pos].
+  assert (Hc : exists f, fcb_cycle (pe_fcb p) = Ok f).
+  { unfold fcb_cycle. destruct (pe_fcb p); cbn; try (eexists; reflexivity). now elim Hf. }
+  destruct Hc as (f & Hc).
+  destruct (flags_contains _ DF_EXT_DIAG).
+  - unfold slice_from. cbn [length Nat.leb bind]. rewrite Hc. cbn [bind]. eexists; reflexivity.
+  - cbn [bind]. rewrite Hc. cbn [bind]. eexists; reflexivity.
+Qed.
+
+Definition reply_shape (t : telegram) : Prop :=
+  t = TShortConf \/ exists h pdu st s, t = TData h pdu /\ h_fc h = FcResponse st s.
+
+Lemma admissible_shape : forall own da t, admissible own da t = true -> reply_shape t.
+Proof.
+  intros own da t H. destruct t as [h pdu| |]; cbn in H; [|discriminate H|left; reflexivity].
+  right. destruct (h_fc h) as [|st s] eqn:E; [rewrite Bool.andb_false_r in H; discriminate H|].
+  exists h, pdu, st, s. split; [reflexivity|exact E].
+Qed.
+
+Lemma receive_dx_total : forall p t, reply_shape t -> exists r, p_receive_dx p t = Ok r.
+Proof.
+  intros p t [->|(h & pdu & st & s & -> & Hfc)]; unfold p_receive_dx.
+  - destruct (negb _); eexists; reflexivity.
+  - rewrite Hfc. destruct s; cbn [fst snd];
+      repeat match goal with |- context [if ?c then _ else _] => destruct c eqn:? end;
+      unfold copy_from_slice, bind;
+      repeat match goal with |- context [if ?c then _ else _] => destruct c eqn:? end;
+      try (eexists; reflexivity).
+  all: exfalso;
+    repeat match goal with
+           | H : Nat.eqb _ _ = true |- _ => apply Nat.eqb_eq in H
+           | H : Nat.eqb _ _ = false |- _ => apply Nat.eqb_neq in H
+           end; cbn in *; lia.
+Qed.
+
+Lemma receive_reply_total : forall p t,
+  pe_fcb p <> FcbInactive -> reply_shape t -> exists r, p_receive_reply p t = Ok r.
+Proof.
+  intros p t Hf Hsh.
+  assert (Hc : forall q, pe_fcb q = pe_fcb p -> exists f, fcb_cycle (pe_fcb q) = Ok f).
+  { intros q ->. unfold fcb_cycle. destruct (pe_fcb p); cbn; try (eexists; reflexivity). now elim Hf. }
+  unfold p_receive_reply. destruct (pe_state p).
+  - destruct (handle_diag_total p t Hf) as ([p1 d] & ->). cbn [bind]. destruct d; eexists; reflexivity.
+  - destruct (is_sc t); [|eexists; reflexivity]. destruct (Hc p eq_refl) as (f & ->). eexists; reflexivity.
+  - destruct (is_sc t); [|eexists; reflexivity]. destruct (Hc p eq_refl) as (f & ->). eexists; reflexivity.
+  - destruct (handle_diag_total (set_retry p 0) t Hf) as ([p1 d] & ->). cbn [bind].
+    destruct d; [destruct (validate_outcome _)|]; eexists; reflexivity.
+  - destruct (pe_diag_in_flight p).
+    + destruct (handle_diag_total p t Hf) as ([p1 d] & ->). cbn [bind]. destruct d; eexists; reflexivity.
+    + destruct (receive_dx_total p t Hsh) as ([p1 e] & Hd). rewrite Hd. cbn [bind].
+      apply receive_dx_frame in Hd. destruct Hd as (Hfc & _).
+      destruct (Hc (set_retry p1 0) Hfc) as (f & ->). eexists; reflexivity.
+  - destruct (pe_diag_in_flight p).
+    + destruct (handle_diag_total p t Hf) as ([p1 d] & ->). cbn [bind]. destruct d; eexists; reflexivity.
+    + destruct (receive_dx_total p t Hsh) as ([p1 e] & Hd). rewrite Hd. cbn [bind].
+      apply receive_dx_frame in Hd. destruct Hd as (Hfc & _).
+      destruct (Hc (set_retry p1 0) Hfc) as (f & ->). eexists; reflexivity.
+Qed.
+
+Lemma increment_total : forall m index a r,
+  occupied_from (skipn index (dm_slots m)) index = a :: r -> (index <= 255)%nat ->
+  (length (dm_slots m) <= 256)%nat -> exists x, increment_cycle m index = Ok x.
+Proof.
+  intros m index a r Ho Hi Hlen. unfold increment_cycle, get_next_index. rewrite Ho.
+  destruct r as [|b r']; [eexists; reflexivity|].
+  assert (Hb : (b < Nat.max index (length (dm_slots m)))%nat).
+  { apply pos_bound. rewrite Ho. right; left; reflexivity. }
+  unfold bind, u8_index. destruct (Nat.ltb 255 b) eqn:E; [apply Nat.ltb_lt in E; lia|]. eexists; reflexivity.
+Qed.
+
+(* a reply within the contract is processed without panic *)
+Lemma reply_total : forall m a t own,
+  safe_inv m (Some a) -> admissible own a t = true -> exists m', dp_receive_reply m a t = Ok m'.
+Proof.
+  intros m a t own (Hf & Hlen & Hp) Ha. destruct (Hp a eq_refl) as (index & hd & p & Hc & Hg & Hadr).
+  unfold dp_receive_reply. rewrite Hc, Hg. cbn [bind].
+  assert (E : (a =? pe_addr p) = true) by (apply Z.eqb_eq; symmetry; exact Hadr). rewrite E.
+  destruct (cur_slot _ _ _ _ Hc Hg) as (r & Hr & Hsl & _).
+  destruct (receive_reply_total p t (Hf _ _ Hsl) (admissible_shape _ _ _ Ha)) as ([p1 ev] & ->). cbn [bind].
+  assert (Hidx : (index <= 255)%nat).
+  { destruct (get_at_index_spec _ _ _ _ Hg) as (r' & Ho & _).
+    destruct (Nat.le_gt_cases (length (dm_slots m)) index) as [Hle|Hgt]; [|lia].
+    rewrite (skipn_all2 _ Hle) in Ho. discriminate Ho. }
+  destruct (put_cur_facts m hd p p1 Hsl) as (_ & _ & Hpr & _).
+  unfold pos_rem in Hpr. cbn [dm_cycle put_cur set_slots] in Hpr. rewrite Hc in Hpr.
+  unfold pos_rem in Hr. rewrite Hc in Hr. rewrite Hr in Hpr.
+  destruct (increment_total (put_cur m hd p1) index _ _ Hpr Hidx) as ([m2 c] & Hi).
+  { cbn. rewrite put_slot_length. exact Hlen. }
+  unfold put_cur in Hi. rewrite Hi. cbn [bind]. eexists; reflexivity.
+Qed.
+
+Definition safe_init (m : dpm) : Prop :=
+  (forall i p, slot m i = Some p -> pe_fcb p <> FcbInactive) /\ (length (dm_slots m) <= 256)%nat.
+
+Theorem contract_safe_history : forall auto pa bufsize m0 cbs tr a t,
+  safe_init m0 -> run_g auto pa bufsize m0 cbs = Ok tr ->
+  pend_run (p_address pa) None tr = Some (Some a) -> admissible (p_address pa) a t = true ->
+  exists m', dp_receive_reply (final m0 tr) a t = Ok m'.
+Proof.
+  intros auto pa bufsize m0 cbs tr a t [Hf Hlen] H Hp Ha.
+  eapply reply_total; [|exact Ha].
+  eapply safe_run; [|exact H|exact Hp].
+  split; [exact Hf|]. split; [exact Hlen|]. intros da E; discriminate E.
+Qed.
